@@ -11,23 +11,27 @@ PROPS_V = "Props/C01.v"
 # functions the hand-written model of this property was written against (normalised source stored under harness/corr/guards/;
 # a difference is reported as broken-correspondence: the theorems then no longer speak about the current source)
 SOURCE_GUARDS = [
-    ("esr/generation/generator.py", "get_allowed_shapes"),
     ("esr/generation/generator.py", "shape_to_functions"),
     ("esr/generation/generator.py", "generate_equations"),
 ]
 
-TRANSLATORS = ["ctree"]
+TRANSLATORS = ["ctree", "allowed"]
 TRUSTED = [
     "translator harness/translate/ctree.py: generator.check_tree is regenerated into Gen/GenShapes.v on every run (checked attribute stores, fuelled for/while loops "
     "left with break, possibly-unbound variables as options) and proved equal to the hand model on every string (C01_code_check_tree_is_model); the check_tree "
     "theorems are restated on the generated function (C01_code_check_tree_iff / _prune_sound / _arrays / _crash)",
+    "translator harness/translate/allowed.py: generator.get_allowed_shapes is regenerated into Gen/GenAllowed.v on every run (typed, fail-closed translation of "
+    "its numpy idioms -- np.array of itertools.product, column reads, boolean-mask row selection, prefix comparison, np.prod/np.where, index-array assignment, "
+    "for-range with carried state, the rank-0/bcast frame -- into the total functions of coq/Common/Np.v, which is hand-written and states what each idiom means, "
+    "None where numpy raises; a width-1 broadcast in the prefix comparison is modelled as an error and proved not to arise) and proved equal to the hand model for "
+    "every complexity (C01_code_allowed_is_model), hence exact for n >= 1 (C01_code_allowed_exact)",
     "Coq 8.16.1 kernel + vm_compute (no native_compute)",
     "Print Assumptions: all C01 theorems closed under the global context (no axioms)",
     "hand-written Gallina models coq/Model/Shapes.v (check_tree with parent/left/right arrays, get_allowed_shapes with "
     "product/pre-filters/failed-prefix mask) and coq/Model/Labels.v (shape_to_functions label loops, 'a' -> 'a%i' renaming, "
     "generate_equations shape loop), tied to the source on every run by the correspondence below",
     "numpy semantics used by the code (itertools.product order, boolean-mask row selection and assignment, np.prod/np.where "
-    "prefix match, dtype U100 label array) are modelled as list operations and exercised, not proved",
+    "prefix match: coq/Common/Np.v; dtype U100 label array: Model/Labels.v) are modelled as list operations and exercised, not proved",
     "pprint/str(numpy array) line format of orig_trees_<n>.txt is parsed by the harness (labels without quotes/whitespace)",
     "MPI stand-in harness/fakempi (single rank): rank 0 computes the shapes and writes the files; other ranks receive them by bcast",
 ]
